@@ -3,3 +3,8 @@ package reader
 import "encoding/json"
 
 func jsonUnmarshalR(b []byte, v interface{}) error { return json.Unmarshal(b, v) }
+
+func init() {
+	// as cmd/main does by default; the lock-order checker spawns timer goroutines outside the bubble
+	deadlockDisable()
+}
